@@ -370,7 +370,7 @@ func main() {
 	dir, seed, thorough := cases.Args()
 	r := cq.NewRNG(seed)
 	s := cases.New("C14", dir, "LW.Corr.C14",
-		"14 bands (x repeater x dwell) x histories of AddChannel/Disable/Enable (random incl. invalid indices; sub-band patterns for the 72/96-channel plans) x device channel lists (all, none, equal, standard, random, sparse, single, unsorted with duplicates, one-flip, out-of-range and negative); plan + apply run on the implementation; planned payloads through LinkADRReqPayload.MarshalBinary/UnmarshalBinary; apply on arbitrary payload lists; sessions: one long-lived band object with planner calls interleaved with AddChannel/Disable/Enable (plan - AddChannel - plan - Disable - plan ...), every plan compared with the model after that prefix of calls and with a control object that reaches the same state without earlier queries. Non-trivial = the plan is non-empty (CPlan), any CEnc, a non-empty payload list (CApply); distinct = distinct printed case")
+		"14 bands (x repeater x dwell) x histories of AddChannel/Disable/Enable (random incl. invalid indices; sub-band patterns for the 72/96-channel plans) x device channel lists (all, none, equal, standard, random, sparse, single, unsorted with duplicates, one-flip, out-of-range and negative); plan + apply run on the implementation; planned payloads through LinkADRReqPayload.MarshalBinary/UnmarshalBinary; apply on arbitrary payload lists; sessions: one long-lived band object with planner calls interleaved with AddChannel/Disable/Enable (plan - AddChannel - plan - Disable - plan ...), every plan compared with the model after that prefix of calls and with a control object that reaches the same state without earlier queries. device lists holding entries outside the plan (next index, next block, 96..127, 128..255, 256+, 4096, negative, every 16th, 64-bit extremes) on top of the network's own set and of random sets, evaluated with the full property. Non-trivial = the plan is non-empty (CPlan), any CEnc, a non-empty payload list (CApply); distinct = distinct printed case")
 	g := &gen{s: s, r: r, seenEnc: map[string]bool{}}
 	cfgs := chanobs.Configs()
 	byName := func(n band.Name) chanobs.Config {
@@ -426,6 +426,62 @@ func main() {
 				}
 				for k := 0; k < per; k++ {
 					g.session(fmt.Sprintf("r%d-%d", round, k), cfg, 5+g.r.Intn(4), nil, nil)
+				}
+			}
+		}
+		// ---- device lists with entries that are not channels of the plan (stale
+		// indices of channels the network no longer has, negative, beyond 255, 4096):
+		// the planner must neither emit a payload for their block nor disturb the
+		// result on the channels of the plan - ordinary cases, full property ----
+		// corpus (audit of the unchanged library, finding C14-4)
+		g.scenario("out-corpus-us-100", byName(band.US915), nil, append(seq(0, 72), 100))
+		g.scenario("out-corpus-us-120", byName(band.AU915), nil, append(seq(0, 72), 120))
+		g.scenario("out-corpus-4096", byName(band.EU868), nil, []int{0, 1, 2, 4096})
+		g.scenario("out-corpus-130", byName(band.EU868), nil, []int{0, 1, 2, 130})
+		g.scenario("out-corpus-neg40", byName(band.EU868), nil, []int{0, 1, 2, -40})
+		g.scenario("out-corpus-7blocks", byName(band.EU868), nil, []int{0, 1, 2, 16, 32, 48, 64, 80, 96, 112})
+		for round := 0; round < rounds; round++ {
+			for _, name := range chanobs.Names {
+				cfg := cfgs[byName(name).Index+g.r.Intn(4)]
+				for _, ops := range [][]chanobs.Op{nil, chanobs.RandHistory(g.r, cfg, 12)} {
+					b, _ := chanobs.Replay(cfg, ops)
+					n := len(b.GetUplinkChannelIndices())
+					en := b.GetEnabledUplinkChannelIndices()
+					base := map[string][]int{"net": en, "rnd": subset(g.r, seq(0, n), 1, 2)}
+					for _, bk := range []string{"net", "rnd"} {
+						outs := map[string][]int{
+							"next":      {n},
+							"block-up":  {(n/16 + 1) * 16, (n/16+1)*16 + 15},
+							"cntl6":     {96 + g.r.Intn(16)},
+							"cntl7":     {112 + g.r.Intn(16)},
+							"cntl8plus": {128 + g.r.Intn(128)},
+							"wrap256":   {256 + g.r.Intn(n+1), 4096, 4096 + 16*7},
+							"negative":  {-1 - g.r.Intn(16), -40, -4096},
+							"every16":   {16, 32, 48, 64, 80, 96, 112, 128},
+							"huge":      {chanobs.WeirdInts[g.r.Intn(len(chanobs.WeirdInts))]},
+						}
+						ok := make([]string, 0, len(outs))
+						for k := range outs {
+							ok = append(ok, k)
+						}
+						sort.Strings(ok)
+						for _, k := range ok {
+							if bk == "rnd" && g.r.Intn(3) != 0 {
+								continue
+							}
+							var extra []int
+							for _, c := range outs[k] {
+								if c < 0 || c >= n {
+									extra = append(extra, c)
+								}
+							}
+							d := append(append([]int{}, base[bk]...), extra...)
+							if g.r.Intn(3) == 0 {
+								d = shuffleDup(g.r, d)
+							}
+							g.scenario("out-"+bk+"-"+k, cfg, ops, d)
+						}
+					}
 				}
 			}
 		}
